@@ -17,9 +17,12 @@ META = {
     'explanation': 'E-TAB + constant propagation: each of the ~900 rule and ~950 era entries of zonedb/zonedbx is read '
                    'through the IR of the Brokers.h accessors (timeCodeToMinutes, toSuffix, toDeltaMinutes, '
                    'toOffsetMinutes, ...) with the entry constants substituted, and compared with the recorded '
-                   'Rule/era line parsed by the TZ grammar; accessor/field/width table; encoder/decoder constant pairing.',
+                   'Rule/era line parsed by the TZ grammar; accessor/field/width table; encoder/decoder constant pairing; thorough tier: '
+                   'the same table and accessor rules on the second preprocessor configuration (ACE_TIME_USE_PROGMEM 0, twin accessors).',
     'decided': 'shipped tables == recorded lines as seen through the library accessors (clause 2); every accessor reads '
-               'the field it is named for with the width of that field; encoder and decoder use paired constants',
+               'the field it is named for with the width of that field; encoder and decoder use paired constants, masks and biases; '
+               'the minute remainder is emitted on every path where it can be non-zero; the largest value the deltaCode template '
+               'can spell is compared with the range of the member it initialises (known finding: it does not fit int8_t)',
     'not_decided': 'decode(encode(x)) == x as an arithmetic identity for every admissible x (div/mod proof)',
     'assumptions': ['clang 14 parser', 'CPython ast', 'shim pgm_read_* are identity loads of the stated width',
                     'TZ line grammar in acv/tzline.py; calendar resolution of UNTIL day expressions by datetime'],
@@ -62,7 +65,45 @@ def run(cfg):
     accessor_rules(cfg, R, lib)
     from . import rules_C12b
     rules_C12b.encoder_rules(cfg, R, lib)
+    if cfg.tier == 'thorough':
+        alt_config(cfg, R)
     return R
+
+
+def alt_config(cfg, R):
+    """Second preprocessor configuration: compat.h hard-wires ACE_TIME_USE_PROGMEM 1, so the non-PROGMEM twins of every
+    broker accessor are dead in the shipped build - but they are what runs as soon as that one line is flipped.  The table
+    rules (R1-*) and the accessor rule (R2) are run again on a private copy of src/ with the macro set to 0."""
+    import os
+    import re
+    import shutil
+    import tempfile
+    from .common import Config
+    R.rule('R-alt', 'with ACE_TIME_USE_PROGMEM 0 the twin accessors read every shipped entry as its recorded line and name the right fields', floor=2500)
+    tmp = tempfile.mkdtemp(prefix='acv-c12alt-')
+    try:
+        shutil.copytree(os.path.join(cfg.repo, 'src'), os.path.join(tmp, 'src'), symlinks=True)
+        p = os.path.join(tmp, 'src', 'ace_time', 'common', 'compat.h')
+        text = open(p).read()
+        new, n = re.subn(r'(#define\s+ACE_TIME_USE_PROGMEM\s+)1\b', r'\g<1>0', text)
+        if n != 1:
+            raise AnalysisError('compat.h: expected exactly one "#define ACE_TIME_USE_PROGMEM 1" (anchor moved)')
+        open(p, 'w').write(new)
+        cfg2 = Config(repo=tmp, tier='quick', seed=cfg.seed, jobs=cfg.jobs)
+        R2 = Report('C12', cfg2)
+        R2.rule('R1-rule', '', floor=0)
+        R2.rule('R1-era', '', floor=0)
+        R2.rule('R1-info', '', floor=0)
+        lib2 = cxx.load_lib(cfg2)
+        for db in ('zonedb', 'zonedbx'):
+            check_db(cfg2, R2, lib2, tables.CxxTables(cfg2, db))
+        accessor_rules(cfg2, R2, lib2)
+        total = sum(r['instances'] for r in R2.rules.values())
+        R.instance('R-alt', 'ACE_TIME_USE_PROGMEM=0', 'src/ace_time/common/compat.h', '%d obligation sites re-examined' % total, n=total)
+        for f in R2.findings:
+            R.violation('R-alt', '%s[PROGMEM=0]' % f.construct, f.loc, '[%s, twin accessor] %s' % (f.rule, f.msg), f.detail)
+    finally:
+        shutil.rmtree(tmp, ignore_errors=True)
 
 
 def suffix_consts(lib, scope):
@@ -299,6 +340,12 @@ SELFTEST = [
          replace='return code * (uint16_t) 15 + (modifier & 0x07);', rule='R3'),
     dict(id='decoder-delta-bias-3', file='src/ace_time/internal/Brokers.h',
          find='return ((int8_t)((uint8_t)deltaCode & 0x0f) - 4) * 15;', replace='return ((int8_t)((uint8_t)deltaCode & 0x0f) - 3) * 15;', rule='R1'),
+    dict(id='twin-accessor-reads-wrong-field', file='src/ace_time/internal/Brokers.h', unique=False, nth=0,
+         find='    int16_t deltaMinutes() const { return 15 * mZoneRule->deltaCode; }', replace='    int16_t deltaMinutes() const { return 15 * mZoneRule->atTimeCode; }',
+         rule='R-alt', tier='thorough'),
+    dict(id='twin-era-accessor-crossed', file='src/ace_time/internal/Brokers.h', unique=False, nth=1,
+         find='    uint8_t untilDay() const { return mZoneEra->untilDay; }', replace='    uint8_t untilDay() const { return mZoneEra->untilMonth; }',
+         rule='R-alt', tier='thorough'),
     dict(id='decoder-delta-mask-lost', file='src/ace_time/internal/Brokers.h',
          find='return ((int8_t)((uint8_t)deltaCode & 0x0f) - 4) * 15;', replace='return ((int8_t)deltaCode - 4) * 15;', rule='R3', construct='toDeltaMinutes'),
     dict(id='encoder-basic-minute-remainder-dropped', file='tools/zonedb/argenerator.py', find='    if timeMinute > 0:', replace="    if scope == 'extended' and timeMinute > 0:",
